@@ -69,6 +69,36 @@ func c10(r *core.Run) {
 			c10One(r, sc, seed, f)
 		}
 	}
+	// a server that repeats the header block of an INSERT (input columns inferred from it): the
+	// receiver is then waiting for the sender to take the column info when the context ends. The
+	// gates that can be reached are taken from a run that is ended by a 300 ms deadline.
+	for _, n := range []int{2, 3, 5} {
+		for _, stream := range []int{0, 2} {
+			sc := scn{Name: fmt.Sprintf("insert-%d-extra-headers-stream%d", n, stream), Insert: true, Stream: stream, ExtraHeaders: n}
+			seed := 77000 + r.Seed + int64(n)
+			pilot := runScenario(sc, seed, nil, 100*time.Millisecond, func() (context.Context, context.CancelFunc) {
+				return context.WithTimeout(context.Background(), 300*time.Millisecond)
+			})
+			if pilot.Sim != nil && pilot.Sim.Client != nil {
+				pilot.Sim.Client.Close()
+			}
+			if !pilot.Returned {
+				r.Violation("does-not-return:deadline:extra-headers", fmt.Sprintf("scenario %s: Do did not return after its 300 ms deadline:\n%s", sc.Name, clipS2(pilot.StuckStacks, 3000)), sc.Name)
+				continue
+			}
+			for _, g := range gatesOf(pilot, "srv:", "write:", "hook:sender:", "hook:receiver:", "cb:") {
+				for _, kind := range []string{"cancel", "deadline"} {
+					ci++
+					if !r.Take(ci) {
+						continue
+					}
+					f := &fault{Kind: kind, Gate: g}
+					r.CaseLog(fmt.Sprintf("%d %s %s", ci, sc.Name, f))
+					c10One(r, sc, seed, f)
+				}
+			}
+		}
+	}
 	// handshake cancellation
 	for k := 0; k < r.Pick(400, 4000); k++ {
 		ci++
@@ -116,6 +146,13 @@ func c10One(r *core.Run, sc scn, seed int64, f *fault) {
 	cl := o.Sim.Client
 	conn := o.Sim.Conn
 	defer cl.Close()
+	if !o.Returned && !o.Fired && sc.ExtraHeaders > 0 {
+		// the cancellation was never issued (gate not reached in this schedule) and this server
+		// never ends the query: nothing to judge
+		r.Count("gate_not_reached", 1)
+		conn.Close()
+		return
+	}
 	if !o.Returned {
 		n, armed := o.StuckReaders, o.StuckArmed
 		if n > 0 && !armed && o.StuckQueue == 0 {
